@@ -660,7 +660,11 @@ def main():
              'both_libraries': "both_libraries('p_both', LIB, build_subdir: 'deep/er')",
              'shared_module': "shared_module('p_mod', LIB, build_subdir: 'deep')",
              'custom_target': "custom_target('p_ct', output: 'p_ct.txt', command: ['touch', '@OUTPUT@'], build_subdir: 'deep')",
-             'custom_target-2': "custom_target('p_ct2', output: ['p_a.txt', 'p_b.txt'], command: ['touch', '@OUTPUT@'], build_subdir: 'deep')"}
+             'custom_target-2': "custom_target('p_ct2', output: ['p_a.txt', 'p_b.txt'], command: ['touch', '@OUTPUT@'], build_subdir: 'deep')",
+             # sources that configuration itself writes into the build directory (with and without build_subdir:)
+             'configured-source': "executable('p_cfgsrc', configure_file(input: SRC, output: 'p_cfgsrc.c', copy: true), LIB)",
+             'configured-source-placed': "executable('p_cfgsrc2', LIB, configure_file(input: SRC, output: 'p_cfgsrc2.c', copy: true, build_subdir: 'deep'), build_subdir: 'deep')",
+             'configured-source-library': "static_library('p_cfglib', configure_file(input: LIB, output: 'p_cfglib.c', copy: true))"}
     for kname, decl in kinds.items():
         for place in ('root', 'subdir'):
             up = '../' if place == 'subdir' else ''
